@@ -79,7 +79,7 @@ class WriterView:
         # the function may end in the last sink call itself (`writer.write_all(..)` as the tail): that path is the success path
         # when the call returns Ok - every earlier `?` already forked on its own result
         for st, (k, v) in self.rl.res:
-            if v[0] == "mcall" and v[1].endswith(("Write::write_all",)) and st.effects and st.effects[-1][:1] == ("call",) \
+            if v[0] == "mcall" and (v[1].endswith(("Write::write_all",)) or v[1] in fx.bodies) and st.effects and st.effects[-1][:1] == ("call",) \
                     and ("mcall",) + tuple(st.effects[-1][1:]) == v and all(p for a, p in st.conds if a[0] == "is" and a[2] == "Ok"):
                 succ.append((st, v))
         self.success = succ
